@@ -337,6 +337,13 @@ def run_testbench(case, ob, site, concrete_inputs=None):
     assume = [z3.Not(d) for d in spec.run(block, K, v, reg_init=regs0 if regs0 or not dv else 'reset', mem_init=spec_mems,
                                           default_value=dv).double_write]
 
+    if assume:
+        s0 = z3.Solver()
+        s0.add(*assume)
+        if s0.check() == z3.unsat:
+            ob.notes.append('design writes one address twice in every cycle (documented undefined): skipped')
+            return ob.fact('skipped-double-write-design', True)
+
     def after(sim, t):
         return sim.tracer           # per explored path: that path's own tracer object
     if concrete_inputs is not None:
